@@ -271,7 +271,7 @@ type cRecorder struct {
 	id       int
 	log      *cLog
 	rc       *RemoteClient
-	autoReady bool          // call Ready(NextMessageID()) on every AcceptRegister (handler 0 only)
+	autoReady bool          // call Ready(NextMessageID()) on every AcceptRegister (handler 0 only, full connections only: on a control connection the handshake ends with the accept, and Ready writes to the socket directly, next to the sender goroutine)
 	readyOwn  bool          // ...but derive the id from the handler's own progress (last delivered + 1)
 	readyBack uint64        // ...minus this many (the application lost its newest records), at least 1
 	lastID    uint64
@@ -376,7 +376,7 @@ func newCEnv(opt cOpt, onConn func(*vconn)) (*cEnv, error) {
 		n = 2
 	}
 	for i := 0; i < n; i++ {
-		r := &cRecorder{id: i, log: e.log, rc: rc, autoReady: opt.autoReady && i == 0, readyOwn: opt.readyOwn, readyBack: opt.readyBack, delayNS: int64(opt.handlerDelay)}
+		r := &cRecorder{id: i, log: e.log, rc: rc, autoReady: opt.autoReady && i == 0 && opt.connType == ConnectionTypeFull, readyOwn: opt.readyOwn, readyBack: opt.readyBack, delayNS: int64(opt.handlerDelay)}
 		e.recs = append(e.recs, r)
 		rc.RegisterHandler(r)
 	}
